@@ -43,9 +43,11 @@ def draw_run(seed, i, cfgs, tier):
     # weight cheap configurations higher but keep the expensive ones in play
     # ... and configurations whose sequential run exercises check_results' un-merge path (it re-maps shuffled,
     # scattered indices) are worth more
-    weights = [(4.0 if c.get('unmerged') else 1.0) / (1 + c['nfun'] / 150.0) for c in cfgs]
+    weights = [(4.0 if c.get('unmerged') else 1.0) * (1.5 if c.get('micro') else 1.0) / (1 + c['nfun'] / 150.0) for c in cfgs]
     cfg = rng.choices(cfgs, weights)[0]
     P = rng.choice(P_CHOICES)
+    if cfg['nfun'] <= 40 and rng.random() < 0.5:
+        P = rng.choice([5, 6, 7, 9, 11, 13, 16])      # tiny libraries: more ranks than labelled trees of a shape
     if cfg['nfun'] > 400:
         P = min(P, 8)
     kind = rng.choice(POLICIES)
@@ -79,8 +81,9 @@ def main(tier, seed, budget):
     explore_s = budget or (150 if quick else 1500)
     hashseeds = [0] if quick else [0, 1, 2, 3]
     crng = base.rng_for(seed, 'c13-configs')
-    cfgs, skipped = configs.pool(crng, n_sub=10 if quick else 40, max_n=5,
+    cfgs, skipped = configs.pool(crng, n_sub=16 if quick else 40, max_n=5,
                                  cap=600 if quick else 1700)
+    cfgs += configs.micro(crng)
     stats = dict(hs2_refs=0, blocks_opened=0, mixed_hs=0, worlds=0, ref_worlds=0, by_P={}, by_policy={}, eager={}, root_copy=0, events=0, mpi=0, fs=0,
                  rdigests=set(), nontrivial=set(), harness=0, sound_functions=0, sound_points=0, empty_slice_runs=0,
                  hashseeds=hashseeds, ref_failed=[])
